@@ -101,22 +101,24 @@ Proof. exact iso_wf. Qed.
 Print Assumptions C09_an_isomorphic_state_is_saveable.
 
 (* Non-vacuity.  Script A: local.7 = 10::20::30 (a constant array), local.8 = local.7 (the
-   same holder), local.4[1] = 1, local.4[40] = local.4 (the dynamic array contains itself),
-   local.4[41] = local.7 (a constant array inside a dynamic one); it starts a thread of its
+   same holder), local.4[-7] = 1 (a NEGATIVE key), local.4[40] = local.4 (the dynamic array contains itself),
+   local.4["waypoint_alpha_3"] = local.7 (a constant array inside a dynamic one, under a long STRING key); it starts a thread of its
    own instance with the ARGUMENTS local.4 local.7 (parameters local.101 local.102: the same
    two holders) that waits 1, stores local.102[1] = 111, prints local.102[2], waits 2 and
    prints local.101[5]; A itself waits 2, stores local.7[2] = 99 and local.4[5] = 55 and
-   prints local.8[2] and local.8[1].  Script B holds an EMPTY string, waits 3, prints it.
+   prints local.8[2], local.8[1] and local.4.size.  Script B holds an EMPTY string, waits 3, prints it.
    Saved right after both were started: three threads wait; holder 1 (constant) is reached
    from 5 places in 2 threads and 1 holder, holder 2 (dynamic) from 3 places incl. itself. *)
+Definition exKey : key := KStr [119; 97; 121; 112; 111; 105; 110; 116; 95; 97; 108; 112; 104; 97; 95; 51].   (* "waypoint_alpha_3" *)
 Definition exChild : prog :=
-  PSeq (IWait 1) (PSeq (ISetElem 102 1 (SInt 111)) (PSeq (IPrintElem 102 2)
-  (PSeq (IWait 2) (PSeq (IPrintElem 101 5) PEnd)))).
+  PSeq (IWait 1) (PSeq (ISetElem 102 (KInt 1) (SInt 111)) (PSeq (IPrintElem 102 (KInt 2))
+  (PSeq (IWait 2) (PSeq (IPrintElem 101 (KInt 5)) PEnd)))).
 Definition exA : prog :=
   PSeq (IConst 7 [CLit (SInt 10); CLit (SInt 20); CLit (SInt 30)]) (PSeq (ICopy 8 7)
-  (PSeq (ISetElem 4 1 (SInt 1)) (PSeq (ISetElemVar 4 40 4) (PSeq (ISetElemVar 4 41 7)
-  (PSeq (IThread [4; 7] exChild) (PSeq (IWait 2) (PSeq (ISetElem 7 2 (SInt 99))
-  (PSeq (ISetElem 4 5 (SInt 55)) (PSeq (IPrintElem 8 2) (PSeq (IPrintElem 8 1) PEnd)))))))))).
+  (PSeq (ISetElem 4 (KInt (-7)) (SInt 1)) (PSeq (ISetElemVar 4 (KInt 40) 4) (PSeq (ISetElemVar 4 exKey 7)
+  (PSeq (IThread [4; 7] exChild) (PSeq (IWait 2) (PSeq (ISetElem 7 (KInt 2) (SInt 99))
+  (PSeq (ISetElem 4 (KInt 5) (SInt 55)) (PSeq (IPrintElem 8 (KInt 2)) (PSeq (IPrintElem 8 (KInt 1))
+  (PSeq (IPrintSize 4) PEnd))))))))))).
 Definition exB : prog := PSeq (ISet 1 (SStr [])) (PSeq (IWait 3) (PSeq (IPrintVar 1) PEnd)).
 Definition ex1 : list op := [OStart exA; OStart exB].
 Definition ex2 : list op := [OAdvance 1; OExecute; OAdvance 1; OExecute; OAdvance 1; OExecute].
@@ -129,16 +131,16 @@ Definition show (o : option obs) := option_map (fun o => (prints o, idle o, wait
 Example C09_archive_example :
   match state_after (init 1000) ex1 with Some s => save s | None => None end =
   Some (mkArc 7
-          [ mkAInst 1 [ mkAThr (ACons 1 (AScal (SStr [])) ANil) 2 (PSeq (IPrintVar 1) PEnd) ];
-            mkAInst 3 [ mkAThr (ACons 101 (ANew false 4 (ACons 1 (AScal (SInt 1)) (ACons 40 (APtr false 4)
-                                   (ACons 41 (ANew true 5 (ACons 1 (AScal (SInt 10)) (ACons 2 (AScal (SInt 20))
-                                                           (ACons 3 (AScal (SInt 30)) ANil)))) ANil))))
-                                (ACons 102 (APtr true 5) ANil)) 6
-                               (PSeq (ISetElem 102 1 (SInt 111)) (PSeq (IPrintElem 102 2)
-                                (PSeq (IWait 2) (PSeq (IPrintElem 101 5) PEnd))));
-                        mkAThr (ACons 7 (APtr true 5) (ACons 8 (APtr true 5) (ACons 4 (APtr false 4) ANil))) 7
-                               (PSeq (ISetElem 7 2 (SInt 99)) (PSeq (ISetElem 4 5 (SInt 55))
-                                (PSeq (IPrintElem 8 2) (PSeq (IPrintElem 8 1) PEnd)))) ] ]
+          [ mkAInst 1 [ mkAThr (ACons (KInt 1) (AScal (SStr [])) ANil) 2 (PSeq (IPrintVar 1) PEnd) ];
+            mkAInst 3 [ mkAThr (ACons (KInt 101) (ANew false 4 (ACons (KInt (-7)) (AScal (SInt 1)) (ACons (KInt 40) (APtr false 4)
+                                   (ACons exKey (ANew true 5 (ACons (KInt 1) (AScal (SInt 10)) (ACons (KInt 2) (AScal (SInt 20))
+                                                           (ACons (KInt 3) (AScal (SInt 30)) ANil)))) ANil))))
+                                (ACons (KInt 102) (APtr true 5) ANil)) 6
+                               (PSeq (ISetElem 102 (KInt 1) (SInt 111)) (PSeq (IPrintElem 102 (KInt 2))
+                                (PSeq (IWait 2) (PSeq (IPrintElem 101 (KInt 5)) PEnd))));
+                        mkAThr (ACons (KInt 7) (APtr true 5) (ACons (KInt 8) (APtr true 5) (ACons (KInt 4) (APtr false 4) ANil))) 7
+                               (PSeq (ISetElem 7 (KInt 2) (SInt 99)) (PSeq (ISetElem 4 (KInt 5) (SInt 55))
+                                (PSeq (IPrintElem 8 (KInt 2)) (PSeq (IPrintElem 8 (KInt 1)) (PSeq (IPrintSize 4) PEnd))))) ] ]
           false 0 [(6, 1); (7, 2); (2, 3)]).
 Proof. vm_compute. reflexivity. Qed.
 
@@ -155,13 +157,13 @@ Example C09_loaded_state_example :
   | None => None
   end =
   Some ([[3]; [2; 1]], [[6; 7]; [2]],
-        [ (4, [(1%Z, VScal (SInt 1)); (40%Z, VArr 4); (41%Z, VCon 5)]);
-          (5, [(1%Z, VScal (SInt 10)); (2%Z, VScal (SInt 20)); (3%Z, VScal (SInt 30))]) ],
+        [ (4, [(KInt (-7), VScal (SInt 1)); (KInt 40, VArr 4); (exKey, VCon 5)]);
+          (5, [(KInt 1, VScal (SInt 10)); (KInt 2, VScal (SInt 20)); (KInt 3, VScal (SInt 30))]) ],
         [ (6, 1, [(101, VArr 4); (102, VCon 5)]);
           (7, 2, [(7, VCon 5); (8, VCon 5); (4, VArr 4)]);
           (2, 3, [(1, VScal (SStr []))]) ],
         [ Some ([], false, true); Some ([PVal (SInt 20)], false, true);
-          Some ([], false, true); Some ([PVal (SInt 99); PVal (SInt 111)], false, true);
+          Some ([], false, true); Some ([PVal (SInt 99); PVal (SInt 111); PVal (SInt 4)], false, true);
           Some ([], false, true); Some ([PVal (SStr []); PVal (SInt 55)], true, false) ]).
 Proof. vm_compute. reflexivity. Qed.
 
@@ -169,6 +171,6 @@ Example C09_uninterrupted_run_example :
   map show (run_from (init 1000) (ex1 ++ ex2)) =
   [ Some ([], false, true); Some ([], false, true);
     Some ([], false, true); Some ([PVal (SInt 20)], false, true);
-    Some ([], false, true); Some ([PVal (SInt 99); PVal (SInt 111)], false, true);
+    Some ([], false, true); Some ([PVal (SInt 99); PVal (SInt 111); PVal (SInt 4)], false, true);
     Some ([], false, true); Some ([PVal (SStr []); PVal (SInt 55)], true, false) ].
 Proof. vm_compute. reflexivity. Qed.
